@@ -600,6 +600,76 @@ fn tokio_sync_read_session(c: &Corpus, compressed: bool, total_bytes: usize, r: 
     })
 }
 
+/// The peer is not there for a while (the program was started before LFS listens): sends are refused by the OS
+/// (ICMP port unreachable -> ECONNREFUSED on the next call). When the peer is back, every write that returns Ok must
+/// leave as exactly one datagram holding exactly its own frame - nothing of the refused ones.
+fn refused_send_session(which: Impl, compressed: bool, p: &mut Part) -> Result<(), String> {
+    use insim::{
+        identifiers::RequestId,
+        insim::{Tiny, TinyType},
+    };
+    let mut pr = pair().map_err(|e| format!("socket setup: {e}"))?;
+    let peer_addr = pr.peer.local_addr().map_err(|e| e.to_string())?;
+    let conn_addr = pr.observer.local_addr().map_err(|e| e.to_string())?;
+    let mut conn = connect(which, compressed, &mut pr).map_err(|e| format!("connect: {e}"))?;
+    let label = format!("refused-send-{}-{}", which.name(), mode_name(compressed));
+    let packet = |k: u8| Packet::Tiny(Tiny { reqi: RequestId(k), subt: TinyType::Ping });
+    let frame = |k: u8| vec![if compressed { 1u8 } else { 4 }, 3, k, 3];
+    // the peer goes away
+    let Pair { peer, observer, .. } = pr;
+    drop(peer);
+    let mut refused = 0;
+    for k in 1..=4u8 {
+        if conn.write(packet(k)).is_err() {
+            refused += 1;
+        }
+        std::thread::sleep(Duration::from_millis(5));
+    }
+    // ... and comes back on the same port
+    let peer = match UdpSocket::bind(peer_addr) {
+        Ok(s) => s,
+        Err(_) => {
+            p.count("refused_send_port_not_rebindable", 1);
+            return Ok(());
+        },
+    };
+    peer.connect(conn_addr).map_err(|e| e.to_string())?;
+    peer.set_read_timeout(Some(Duration::from_secs(3))).map_err(|e| e.to_string())?;
+    let mut expected: Vec<Vec<u8>> = vec![];
+    for k in 100..=105u8 {
+        if conn.write(packet(k)).is_ok() {
+            expected.push(frame(k));
+        }
+        std::thread::sleep(Duration::from_millis(1));
+    }
+    p.evaluations += 1;
+    p.distinct(&label);
+    p.count("refused_sends_observed", refused);
+    if expected.is_empty() {
+        return Err(format!("{label}: no write succeeded after the peer came back"));
+    }
+    let mut got: Vec<Vec<u8>> = vec![];
+    let mut b = [0u8; 2048];
+    while got.len() < expected.len() + 2 {
+        match peer.recv(&mut b) {
+            Ok(n) => got.push(b[..n].to_vec()),
+            Err(_) => break,
+        }
+        if got.len() >= expected.len() {
+            peer.set_read_timeout(Some(Duration::from_millis(50))).ok();
+        }
+    }
+    if got != expected {
+        p.violation(
+            format!("C08/{}/datagram-after-refused-send", which.name()),
+            format!("{label}: {refused} sends were refused while the peer was away; afterwards {} writes returned Ok, the peer received {:?} instead of {:?}", expected.len(), got.iter().map(|d| hex(d)).collect::<Vec<_>>(), expected.iter().map(|d| hex(d)).collect::<Vec<_>>()),
+            json!({"impl": which.name(), "mode": mode_name(compressed), "refused": refused}),
+        );
+    }
+    drop(observer);
+    Ok(())
+}
+
 pub fn run(ctx: &mut Ctx) -> (&'static str, String, bool) {
     let c = match Corpus::load() {
         Ok(c) => c,
@@ -657,6 +727,13 @@ pub fn run(ctx: &mut Ctx) -> (&'static str, String, bool) {
             Err(e) => ctx.inconclusive(format!("tokio adaptor, synchronous read, {}: {e}", mode_name(compressed))),
         }
     }
+    for which in [Impl::Blocking, Impl::Tokio] {
+        for compressed in MODES {
+            if let Err(e) = refused_send_session(which, compressed, &mut p) {
+                ctx.inconclusive(format!("refused-send session: {e}"));
+            }
+        }
+    }
     ctx.extra("builder_sessions", json!(builder_sessions));
     ctx.merge(p);
     ctx.extra("sessions", json!(sessions));
@@ -667,7 +744,7 @@ pub fn run(ctx: &mut Ctx) -> (&'static str, String, bool) {
     ctx.assume("loss is decided by observing an empty kernel queue (three consecutive observations) while packets are owed, never by a timeout alone");
     (
         "exploration",
-        "real loopback UDP socket pairs; per {blocking,tokio} x {compressed,uncompressed} x 4 datagram-size styles (small, maximal incl. a single 1020-byte frame, uniform, bimodal): bursts of 1-4 datagrams of 1..n frames until several times the 6120-byte buffer has passed through, every delivered packet compared with the isolated decoding of the sent frames; then 40 writes (a third of them maximum-size list packets) observed as exactly one datagram each; the same traffic (maximal and bimodal sizes) through connections made by Builder::udp(..).connect_blocking()/connect_async(), one datagram at a time with an in-order sentinel deciding loss; the tokio adaptor's synchronous std::io::Read / Write with caller slices of 1..2048 bytes; distinct = distinct (mode, datagram) sent by the peer".into(),
+        "real loopback UDP socket pairs; per {blocking,tokio} x {compressed,uncompressed} x 4 datagram-size styles (small, maximal incl. a single 1020-byte frame, uniform, bimodal): bursts of 1-4 datagrams of 1..n frames until several times the 6120-byte buffer has passed through, every delivered packet compared with the isolated decoding of the sent frames; then 40 writes (a third of them maximum-size list packets) observed as exactly one datagram each; the same traffic (maximal and bimodal sizes) through connections made by Builder::udp(..).connect_blocking()/connect_async(), one datagram at a time with an in-order sentinel deciding loss; writes around a period in which the OS refuses sends (peer away, ECONNREFUSED); the tokio adaptor's synchronous std::io::Read / Write with caller slices of 1..2048 bytes; distinct = distinct (mode, datagram) sent by the peer".into(),
         false,
     )
 }
